@@ -130,7 +130,9 @@ var solvers = []solverSpec{
 	{"z3-new/noflat", "z3-new", func(t int, f string) []string {
 		return []string{fmt.Sprintf("-T:%d", t), "rewriter.flat=false", "smt.random_seed=" + seedStr(), f}
 	}, false},
-	{"z3", "z3", func(t int, f string) []string { return []string{fmt.Sprintf("-T:%d", t), "smt.random_seed=" + seedStr(), f} }, false},
+	{"z3", "z3", func(t int, f string) []string {
+		return []string{fmt.Sprintf("-T:%d", t), "smt.random_seed=" + seedStr(), f}
+	}, false},
 	{"cvc5", "cvc5", func(t int, f string) []string {
 		return []string{fmt.Sprintf("--tlimit=%d", t*1000), "--seed=" + seedStr(), f}
 	}, false},
@@ -158,7 +160,7 @@ func seedStr() string {
 // race the solvers on one file; first definite answer wins
 func raceSolvers(file string, timeoutS int) (status, solver, output string, dur time.Duration) {
 	t0 := time.Now()
-	ctx, cancel := context.WithTimeout(context.Background(), time.Duration(timeoutS+5)*time.Second)
+	ctx, cancel := context.WithCancel(context.Background())
 	defer cancel()
 	type ans struct{ s, who, out string }
 	ch := make(chan ans, len(solvers))
@@ -174,13 +176,27 @@ func raceSolvers(file string, timeoutS int) (status, solver, output string, dur 
 				case <-time.After(map[bool]time.Duration{false: 1200 * time.Millisecond, true: 4 * time.Second}[sp.late]):
 				}
 			}
-			cmd := exec.CommandContext(ctx, sp.bin, sp.args(timeoutS, file)...)
+			// at most procSlots solver processes run at once (across all obligations of this run): a
+			// solver's time limit counts from the moment it gets a slot, so an overloaded machine makes
+			// a check slower, not flaky
+			release, ok := acquireSlot(ctx)
+			if !ok {
+				ch <- ans{"cancelled", sp.name, ""}
+				return
+			}
+			defer release()
+			pctx, pcancel := context.WithTimeout(ctx, time.Duration(timeoutS+5)*time.Second)
+			defer pcancel()
+			cmd := exec.CommandContext(pctx, sp.bin, sp.args(timeoutS, file)...)
 			var buf bytes.Buffer
 			cmd.Stdout = &buf
 			cmd.Stderr = &buf
 			cmd.Run()
 			out := buf.String()
 			first := strings.TrimSpace(strings.SplitN(out, "\n", 2)[0])
+			if first == "" && pctx.Err() != nil && ctx.Err() == nil {
+				first = "timeout"
+			}
 			ch <- ans{first, sp.name, out}
 		}(si, sp)
 	}
